@@ -361,6 +361,14 @@ def panics_run(tier='quick'):
         res['status'] = 'undecided'
         res['soft_undecided'] = ['new unclassified panic site: %s %s `%s`' % (s['file'], s['fn'], s['text'][:80]) for s in new[:5]]
         res['reason'] = ' | '.join(res['soft_undecided'])
+    # rule borrow-local (RefCell borrows of the thread-locals): the shape is an obligation of every run; a borrow the rule does
+    # not cover is not a panic found, so it leaves C08 undecided
+    b_ok, b_bad = P.borrow_local()
+    res['samples'].append(dict(obligation='rule borrow-local: every RefCell borrow is a temporary inside a thread-local accessor that calls nothing else', sites=b_ok, not_covered=b_bad))
+    if b_bad:
+        res['status'] = 'undecided'
+        res['soft_undecided'] = (res.get('soft_undecided') or []) + ['RefCell borrow outside rule borrow-local: ' + x for x in b_bad[:5]]
+        res['reason'] = ' | '.join(res['soft_undecided'])
     res['cmd'] = 'python3 -m gvc.engine panics'
     res['wall_s'] = time.time() - t0
     return res
